@@ -808,7 +808,7 @@ fn probe_case(size: usize, id: String) -> Case {
         };
         // oracle (property text): accepts only correct magic, version 1 or 2, known non-zero type,
         // region at least as large as the register block; writes nothing; legal 32-bit reads only
-        let must_reject = magic != MAGIC || !(ver == 1 || ver == 2) || devid == 0 || size < 0x100;
+        let must_reject = magic != MAGIC || !(ver == 1 || ver == 2) || devid == 0 || size < 0x100 || !spec_known(devid);
         if accepted && must_reject {
             c.fail(format!("{}: accepted", line));
         }
